@@ -177,7 +177,7 @@ fn inst_range_or_option() {
 }
 
 /// literal + Some(range) + binding
-//@K props=C06,C19 tier=quick label=inst feat=ext fn=matching!(7,Some(-3..=3))
+//@K props=C06,C19 tier=thorough label=inst feat=ext fn=matching!(7,Some(-3..=3))
 #[kani::proof]
 #[kani::unwind(10)]
 #[kani::stub(alloc::fmt::format, fmt_stub)]
@@ -544,7 +544,7 @@ fn inst_ne_with_guard() {
 
 
 /// bare identifiers that are NOT bindings: `None` (a unit variant in scope) is refutable although syn parses it as Pat::Ident
-//@K props=C06,C19 tier=quick label=inst feat=ext fn=matching!(_,None)+matching!(7,None)
+//@K props=C06,C19 tier=quick label=inst feat=ext fn=matching!(_,None)
 #[kani::proof]
 #[kani::unwind(10)]
 #[kani::stub(alloc::fmt::format, fmt_stub)]
@@ -557,6 +557,15 @@ fn inst_bare_ident_refutable() {
     };
     check(off, on, e);
     check_positions(e, &mism, ((!matches!(i.1, None)) as u8) << 1, [0, 0, 0, 0], 2);
+}
+
+/// ... next to a literal (two rejecting positions possible)
+//@K props=C06,C19 tier=thorough label=inst feat=ext fn=matching!(7,None)
+#[kani::proof]
+#[kani::unwind(10)]
+#[kani::stub(alloc::fmt::format, fmt_stub)]
+fn inst_lit_and_bare_ident() {
+    let i: (u8, Option<i8>) = (kani::any(), kani::any());
     let (off2, on2, mism2) = verdicts::<F2>(matching!(7, None), &i);
     let e2 = match (&i.0, &i.1) {
         (7, None) => true,
